@@ -54,6 +54,25 @@ pub fn run(out: &mut Out, tier: &str, seed: u64) {
     let scalars = special_scalars(&mut rng, if thorough { 24 } else { 8 });
     let mut points = special_points();
     for k in 0..(if thorough { 600 } else { 120 }) { points.push((format!("random#{}", k), rng.arr())); }
+    // neighbours of the special encodings: every value of the first and of the last byte (an
+    // implementation that recognises special points by a partial comparison shows up only here)
+    let base_specials: Vec<(String, [u8; 32])> = special_points().into_iter().filter(|(n, _)| !n.contains('|') && !n.starts_with("u=") && !n.starts_with("rfc")).collect();
+    let mut near: Vec<(String, [u8; 32])> = vec![];
+    for (name, p) in base_specials.iter() {
+        for pos in [0usize, 31, 15, 30] {
+            let step = if pos == 0 || pos == 31 { 1 } else { 17 };
+            for v in (0..=255u16).step_by(step) { let mut q = *p; if q[pos] != v as u8 { q[pos] = v as u8; near.push((format!("{}[{}]={:#x}", name, pos, v), q)); } }
+        }
+    }
+    for (k, (name, p)) in near.iter().enumerate() {
+        let n = &scalars[2 + k % 2];
+        let d = d_mult(n, p);
+        let (s, _) = sodium::scalarmult_raw(n, p);
+        out.search_evaluations += 1;
+        if d.clone().ok() != Some(s) {
+            out.hit("scalarmult.differs-from-libsodium.near-special-point", format!("point {}", name), json!({"op":"scalarmult.mult","n":hx(n),"p":hx(p),"point":name,"dryoc":format!("{:?}", d.map(|q| hx(&q))),"libsodium":hx(&s)}));
+        }
+    }
     let mut model_budget = if thorough { 160 } else { 40 };
     for (si, n) in scalars.iter().enumerate() {
         for (pi, (name, p)) in points.iter().enumerate() {
@@ -111,6 +130,23 @@ pub fn run(out: &mut Out, tier: &str, seed: u64) {
         if r < 3 {
             out.case("kx.client", &[b(&pka), b(&ska), b(&pkb)], &c.map(|(a, bb)| vec![b(&a), b(&bb)]), true);
             out.case("kx.server", &[b(&pkb), b(&skb), b(&pka)], &s.map(|(a, bb)| vec![b(&a), b(&bb)]), true);
+        }
+        // peer keys presented with the unused top bit set (RFC 7748 ignores it in the DH, but the
+        // transcript hash covers the bytes as received)
+        {
+            let mut pkb_hi = pkb; pkb_hi[31] |= 0x80;
+            let mut pka_hi = pka; pka_hi[31] |= 0x80;
+            out.search_evaluations += 3;
+            let c = guard(|| { let (mut rx, mut tx) = ([0u8; 32], [0u8; 32]); crypto_kx_client_session_keys(&mut rx, &mut tx, &pka, &ska, &pkb_hi).map(|_| (rx, tx)) });
+            if c.clone().ok() != sodium::kx_client(&pka, &ska, &pkb_hi) { out.hit("kx.client.differs-from-libsodium.high-bit-peer-key", format!("pair {}", r), json!({"op":"kx.client","cpk":hx(&pka),"csk":hx(&ska),"spk":hx(&pkb_hi)})); }
+            let s2 = guard(|| { let (mut rx, mut tx) = ([0u8; 32], [0u8; 32]); crypto_kx_server_session_keys(&mut rx, &mut tx, &pkb, &skb, &pka_hi).map(|_| (rx, tx)) });
+            if s2.clone().ok() != sodium::kx_server(&pkb, &skb, &pka_hi) { out.hit("kx.server.differs-from-libsodium.high-bit-peer-key", format!("pair {}", r), json!({"op":"kx.server","spk":hx(&pkb),"ssk":hx(&skb),"cpk":hx(&pka_hi)})); }
+            let bn = guard_total(|| crypto_box_beforenm(&pkb_hi, &ska));
+            if bn.ok() != sodium::box_beforenm(&pkb_hi, &ska) { out.hit("box.beforenm.differs-from-libsodium.high-bit-peer-key", format!("pair {}", r), json!({"op":"box.beforenm","pk":hx(&pkb_hi),"sk":hx(&ska)})); }
+            if r < 2 {
+                out.case("kx.client", &[b(&pka), b(&ska), b(&pkb_hi)], &c.map(|(a, bb)| vec![b(&a), b(&bb)]), true);
+                out.case("kx.server", &[b(&pkb), b(&skb), b(&pka_hi)], &s2.map(|(a, bb)| vec![b(&a), b(&bb)]), true);
+            }
         }
         // object API
         {
